@@ -84,6 +84,8 @@ def writer_fields(db):
                     break
                 name = G.SPEC.get(tw >> 8, ('?',))[0]
                 ln = L.cv if L is not None else None
+                if (tw >> 8) not in G.SPEC or (ln is not None and (ln < 4 or ln % 2)):
+                    break           # not a record header (e.g. a constant lookup table of 16-bit values)
                 nw = ((ln - 4) // 2) if ln is not None else 0
                 payload = words[i + 2:i + 2 + nw]
                 fs = set()
@@ -123,6 +125,9 @@ def writer_fields(db):
                     L, Tw = words[i], words[i + 1]
                     t2 = Tw.cv if Tw is not None and Tw.cv is not None else None
                     ln = L.cv if L is not None else None
+                    if ln is not None and (ln < 4 or ln % 2):
+                        tw = None
+                        break       # not a record header
                     nw = ((ln - 4) // 2) if ln is not None else 0
                     if ln is None or i + 2 + nw > len(words):
                         tw = t2
@@ -247,6 +252,12 @@ def check_strans_writer(ctx, db):
             t = norm(e.text())
             if t in atoms:
                 return val[atoms[t]]
+            if e.k == 'DeclRefExpr' and e.dk == 'local':
+                # a named condition (`const bool has_rot = rotation != 0`): its single definition
+                ds = [v for v in g.walk() if v.k == 'VarDecl' and v.d == e.d and v.child('init') is not None]
+                ws = [x for x in g.walk() if (is_assign(x) or x.k == 'CompoundAssignOperator') and _strip_casts(x.child('lhs')).k == 'DeclRefExpr' and _strip_casts(x.child('lhs')).d == e.d]
+                if len(ds) == 1 and not ws:
+                    return ev(ds[0].child('init'), val)
             raise AnalysisBroken('%s: transform_ guard mentions `%s`' % (qn, t[:60]))
         bad = []
         for bits in range(8):
